@@ -708,9 +708,25 @@ func (g *Gen) Next() *Text {
 		return g.Raw()
 	case p < 50:
 		return g.DupName()
+	case p < 54:
+		return g.Invisible()
 	default:
 		return g.Mutant()
 	}
+}
+
+// Invisible wraps a valid text in characters an editor does not show (byte-order mark, zero-width and
+// no-break spaces, form feed, NUL) at its very beginning or end: whatever the verdict, it is the same everywhere.
+func (g *Gen) Invisible() *Text {
+	v := g.valid(false)
+	inv := []string{"\ufeff", "\u200b", "\u00a0", "\x0c", "\x00", "\ufeff\ufeff", "\u2028"}[g.R.Intn(7)]
+	t := &Text{Class: ClassMutant, NamesKnown: false, Names: v.Names}
+	if g.R.Intn(3) > 0 {
+		t.S, t.How = inv+v.S, fmt.Sprintf("valid text prefixed with %q", inv)
+	} else {
+		t.S, t.How = v.S+inv, fmt.Sprintf("valid text followed by %q", inv)
+	}
+	return t
 }
 
 // Merge is the model of an incremental update: rules of t replace rules of the same name.
